@@ -43,8 +43,12 @@ META = dict(
          "thread ended), and classifies every exception raised by the public call in flight and every exception "
          "stored in saved_exception. Mutations are per field of a message grammar (truncation at each boundary, "
          "invalid UTF-8, lying/huge/zero lengths, wrong types, tails, edge integers), plus banners, packet framing, "
-         "ciphertext bit flips per cipher family, framing and compression garbage under encryption, and re-key "
-         "messages. Holds for the sessions produced, not for all byte strings.",
+         "ciphertext bit flips per cipher family, framing and compression garbage under encryption, re-key "
+         "messages, auth-protocol messages arriving after a completed authentication attempt (failed by each "
+         "method, partial, successful, query outstanding; both roles), and duplicate/late confirmations of the "
+         "connection protocol each followed by a victim-side wait=True round trip. Zero-length mpints and cuts at "
+         "every field boundary of kex/signature messages are named strata with their own minimum counts. "
+         "Holds for the sessions produced, not for all byte strings.",
     note="Trusts vf.net.Link, the attacker Transport (only as a key-holding sender) and the classification of "
          "exception types. Loop-count fields are kept below 10^5 and a negative gex modulus is not sent, because "
          "those make the victim spin for hours (CPU-time issue outside this property). GSS-API is simulated by a stub "
